@@ -931,6 +931,7 @@ def run_fill(model, sc: Scenario, ctx=None):
         "collections.OrderedDict": lambda ev, a, k: __import__("cijsa.sym", fromlist=["lib_dict"]).lib_dict(ev, a, k, None, None),
     }
     ev = Ev(model, {}, intr, ctx=ctx)
+    ev.sympy_objects = True         # fill_cij works with sympy expressions as objects (relations, their symbols)
     ev_ref = {}
     table.index_value = TableIndex()
     DFV.sym_subscript_multi = lambda self, names: ColsMat(list(names), [self.cols[n_] for n_ in names])
